@@ -154,7 +154,10 @@ class DictWriter:
                     # nasty python code annotations when writing to yaml.
                     if isinstance(tag, tuple):
                         prop_dict[attr] = list(tag)
-                    elif (tag == []) or tag:  # Even if 'values' is empty, allow '[]'
+                    # Even if 'values' is empty, allow '[]'; a number is always
+                    # written, an uncertainty of 0 is not the same as no uncertainty.
+                    elif (tag == []) or tag or \
+                            (isinstance(tag, (int, float)) and not isinstance(tag, bool)):
                         # Custom odML tuples require special handling.
                         if attr == "values" and prop.dtype and \
                                 prop.dtype.endswith("-tuple") and prop.values:
